@@ -1652,6 +1652,9 @@ func (in *Interp) builtin(fr *frame, b *ssa.Builtin, args []Value, site ssa.Inst
 	case "print", "println":
 		return nil
 	case "recover":
+		if fr.caller != nil && fr.caller.panicking && fr.caller.panicVal != nil && fr.caller.panicVal.kind == "goexit" {
+			return Iface{} // Goexit is not a panic: recover returns nil and the exit goes on
+		}
 		if fr.caller != nil && fr.caller.panicking {
 			fr.caller.panicking = false
 			p := fr.caller.panicVal
